@@ -54,10 +54,26 @@ pub fn typed_rows(rng: &mut Rng) -> Vec<Vec<SqlValue>> {
             Integer(rng.range(-50, 50)),
         ]);
     }
+    // declared lengths beyond 255: a wide VARCHAR and a wide CHAR column
+    for (i, r) in rows.iter_mut().enumerate() {
+        let wide = match i % 4 {
+            0 => Varchar("w".repeat(300)),
+            1 => Varchar("ünï✓ ".repeat(40)),
+            2 => Varchar(String::new()),
+            _ => Null,
+        };
+        let ch = match i % 3 {
+            0 => Character(format!("{:<260}", "wide char")),
+            1 => Character(format!("{:<260}", "x".repeat(259))),
+            _ => Null,
+        };
+        r.push(wide);
+        r.push(ch);
+    }
     rows
 }
 
-pub const TYPED_DDL: &str = "CREATE TABLE ty (a SMALLINT, b BIGINT, c DOUBLE PRECISION, d REAL, e NUMERIC(10,2), f CHAR(5), g BOOLEAN, h DATE, i TIME, j TIMESTAMP, k VARCHAR(30), l INTEGER)";
+pub const TYPED_DDL: &str = "CREATE TABLE ty (a SMALLINT, b BIGINT, c DOUBLE PRECISION, d REAL, e NUMERIC(10,2), f CHAR(5), g BOOLEAN, h DATE, i TIME, j TIMESTAMP, k VARCHAR(30), l INTEGER, m VARCHAR(400), n CHAR(260))";
 
 /// Build a database from `seed`. Returns the database and the SQL history (for samples).
 pub fn make_db(seed: u64, with_typed: bool) -> (Database, Vec<String>) {
